@@ -22,7 +22,7 @@ for fl, quick in (('MEMB', True), ('MB', True), ('QSBR', True), ('BP', True)):
 # (shared with C03; late import via engine/check.py)
 def _shared():
     from obligations import C03 as _c03
-    return [o for o in _c03.OBLIGATIONS if o.name in ('C03.O1.call_rcu_enqueue', 'C03.O2.thread_iteration', 'C03.O2.helper_sleep')]
+    return [o for o in _c03.OBLIGATIONS if o.name in ('C03.O1.call_rcu_enqueue', 'C03.O2.thread_iteration', 'C03.O2.helper_sleep', 'C03.O4.data_free', 'C03.O4.data_free_refused')]
 META = {
     'level': 'proof', 'bounded_apart': True,
     'trusted_base': ['CBMC 6.11 (goto-cc, goto-instrument contract replacement, SAT back end)',
